@@ -1,6 +1,8 @@
 package props
 
 import (
+	"bytes"
+	"sync"
 	"io"
 	"fmt"
 	"math"
@@ -164,7 +166,102 @@ func RunC01(c *Ctx) {
 		if idx%8 == 1 {
 			flakyWriterSweep(c, idx, t)
 		}
+		if idx%4 == 2 && len(t.Refs)+len(t.Logs) > 0 {
+			otherWriters(c, idx, t, data)
+		}
 	}
+}
+
+// nestingWriter runs a complete write of another table (its own Writer, its own buffer)
+// inside every Write call it receives - what happens when the io.Writer handed to a
+// Writer is itself backed by reftable code, or simply when a second goroutine writes a
+// table while the first one is inside a slow Write.
+type nestingWriter struct {
+	buf   bytes.Buffer
+	other *gen.Table
+	calls int
+}
+
+func (n *nestingWriter) Write(b []byte) (int, error) {
+	n.calls++
+	if n.calls <= 64 {
+		rtx.WriteTable(n.other)
+	}
+	return n.buf.Write(b)
+}
+
+// otherWriters: Writers are independent objects. The bytes a Writer produces for a record
+// set must not depend on other Writers being active in the same process: (a) another table
+// is written inside every Write call of this table's io.Writer, (b) eight goroutines write
+// the table at the same time. Each result must be byte-identical to the undisturbed one
+// (which the caller has already read back and compared with the records).
+func otherWriters(c *Ctx, idx int, t *gen.Table, data []byte) {
+	r := c.Rep
+	hs := t.Cfg.HashSize()
+	other := &gen.Table{Cfg: gen.Cfg{SHA256: hs == 32, BlockSize: 256}}
+	other.Refs = []gen.Ref{{Name: "refs/heads/other", Kind: gen.KVal, Value: gen.IDHash(7, 1, hs), UI: 1}}
+	for i := 0; i < 6; i++ {
+		other.Logs = append(other.Logs, gen.Log{Name: fmt.Sprintf("refs/heads/other%d", i), UI: 1, New: gen.IDHash(7, 2+i, hs), User: "someone else", Email: "else@example.org", Time: 12345, Msg: "written by another Writer\n"})
+	}
+	other.Cfg.SetLimits, other.Cfg.Min, other.Cfg.Max = true, 1, 1
+	cs := func(d string) tableCase { return mkCase(c, "GenTable", idx, t, d) }
+	r.Evaluations++
+	nw := &nestingWriter{other: other}
+	err := rtx.Safe(func() error {
+		cfg := rtx.Config(t.Cfg)
+		w, err := reftable.NewWriter(nw, &cfg)
+		if err != nil {
+			return err
+		}
+		if err := rtx.WriteRecords(w, t); err != nil {
+			return err
+		}
+		return w.Close()
+	})
+	if err != nil {
+		r.Violate([]string{"C01"}, "write-fails-while-another-writer-is-active|"+errClass(err), fmt.Sprintf("writing the table failed when another Writer wrote a table inside each Write call: %v %s", err, PanicDetail(err)), cs(""))
+		return
+	}
+	if !bytes.Equal(nw.buf.Bytes(), data) {
+		r.Violate([]string{"C01"}, "table-bytes-depend-on-another-writer|nested", fmt.Sprintf("the table written while another Writer was used inside each of the %d Write calls differs from the undisturbed one (%d vs %d bytes, first difference at %d)", nw.calls, nw.buf.Len(), len(data), firstDiff(nw.buf.Bytes(), data)), cs(""))
+		return
+	}
+	r.Count("tables_written_with_nested_writer", 1)
+	if idx%16 == 2 {
+		var wg sync.WaitGroup
+		outs := make([][]byte, 8)
+		errs := make([]error, 8)
+		for g := range outs {
+			wg.Add(1)
+			go func(g int) {
+				defer wg.Done()
+				for rep := 0; rep < 3; rep++ {
+					outs[g], errs[g] = rtx.WriteTable(t)
+					if errs[g] != nil || !bytes.Equal(outs[g], data) {
+						return
+					}
+				}
+			}(g)
+		}
+		wg.Wait()
+		r.Evaluations++
+		for g := range outs {
+			if errs[g] != nil || !bytes.Equal(outs[g], data) {
+				r.Violate([]string{"C01"}, "table-bytes-depend-on-another-writer|goroutines", fmt.Sprintf("goroutine %d of 8 writing this table concurrently (each with its own Writer) got err=%v and %d bytes, the undisturbed table has %d", g, errs[g], len(outs[g]), len(data)), cs(""))
+				return
+			}
+		}
+		r.Count("tables_written_by_concurrent_writers", 1)
+	}
+}
+
+func firstDiff(a, b []byte) int {
+	for i := 0; i < len(a) && i < len(b); i++ {
+		if a[i] != b[i] {
+			return i
+		}
+	}
+	return min(len(a), len(b))
 }
 
 // flakyWriterSweep: the same table is written through an io.Writer whose k-th Write fails
@@ -508,6 +605,16 @@ func seekTable(c *Ctx, r *rep.Report, props []string, idx int, t *gen.Table, dat
 	}
 	fail := func(sig, detail string) {
 		r.Violate(props, sig, detail, mkCase(c, "GenSeekTable", idx, t, detail))
+	}
+	// several iterators of this one Reader open at the same time, advanced in turn
+	{
+		irng := gen.NewRng(gen.Mix(c.Seed^0x11ea, int64(idx)))
+		if sig, d, steps := interleavedCursors(irng, rd, wantRefs, wantLogs, nil, 2+irng.Intn(3), 400); sig != "" {
+			fail("interleaved-iterators|"+sig, d)
+			return
+		} else {
+			r.Count("interleaved_iterator_steps", steps)
+		}
 	}
 
 	// ---- refs
